@@ -6,6 +6,7 @@ package jmespath
 import (
 	"encoding/json"
 	"fmt"
+	"sort"
 	"strconv"
 	"strings"
 )
@@ -66,4 +67,17 @@ func verifJSON(v interface{}) string {
 		return fmt.Sprintf("<unmarshalable %T>", v)
 	}
 	return string(b)
+}
+
+// VerifFunctionNames lists the names of the built-in functions a new
+// interpreter knows, sorted. Verification harnesses use it to exercise every
+// function in the table, including ones their own model does not know.
+func VerifFunctionNames() []string {
+	table := newFunctionCaller().functionTable
+	names := make([]string, 0, len(table))
+	for name := range table {
+		names = append(names, name)
+	}
+	sort.Strings(names)
+	return names
 }
